@@ -122,6 +122,62 @@ def run_case(case):
             "dg": (obs["verdict"], obs["calls"], sorted(obs["status"].items()), obs["hooks"])}
 
 
+def titleonly_case(case):
+    """title-only scenarios (no own steps, NO background): a de-selected one must be reported skipped, gets no hook,
+    and a container without any selected scenario is skipped; what a SELECTED childless scenario ends as is not stated
+    (only the de-selected side and the containers are judged)"""
+    feat, expr, show_skipped, dry = case
+    prog = (feat,)
+    cfg = {"tags": expr, "show_skipped": bool(show_skipped)}
+    if dry:
+        cfg["dry"] = True
+    obs = harness.run_case(prog, cfg, hooks=True)
+    ref = refrun.Ref(prog, cfg, hooks=True)
+    v = []
+    sel = [p for p, (k, i) in ref.info.items() if ref.selected(i["tags"])]
+    desel = [p for p, (k, i) in ref.info.items() if not ref.selected(i["tags"])]
+    if obs["escaped"]:
+        v.append(({"subcheck": "selection", "clause": "exception-escapes-run", "exc": obs["escaped"], "shape": "title-only"},
+                  "run() raised %s: %s" % (obs["escaped"], obs.get("escaped_msg"))))
+    else:
+        for p in desel:
+            if obs["status"].get(p) != "skipped" or any(s_ != "skipped" for s_ in obs["steps"].get(p, ())):
+                v.append(({"subcheck": "selection", "clause": "deselected-not-skipped", "dry": str(bool(dry)),
+                           "shape": "title-only" if not ref.info[p][1]["steps"] else "with-steps"},
+                          "de-selected scenario %r (steps %r): status %s under %r"
+                          % (p, obs["steps"].get(p), obs["status"].get(p), expr)))
+                break
+        for name, r in obs["hooks"]:
+            tgt = r[0] if "step" in name else r
+            if tgt in desel:
+                v.append(({"subcheck": "selection", "clause": "hook-for-deselected", "hook": name, "shape": "title-only"},
+                          "hook %s called for de-selected scenario %r under %r" % (name, tgt, expr)))
+                break
+        for path, kind in P.element_paths(prog):
+            if kind in ("F", "R"):
+                inside = [q for q in ref.info if q[:len(path)] == path]
+                if inside and not any(q in sel for q in inside) and obs["status"][path] != "skipped":
+                    v.append(({"subcheck": "selection", "clause": "container-not-skipped", "kind": kind,
+                               "got": obs["status"][path], "shape": "title-only"},
+                              "%s %r contains no selected scenario but is %s (children %r)"
+                              % (kind, path, obs["status"][path], [obs["status"].get(q) for q in inside])))
+    return {"v": v, "nt": digest(case) if desel else None, "out": ("title-only", expr, len(sel), len(desel), bool(dry)),
+            "dg": (obs["verdict"], sorted(obs["status"].items()), obs["hooks"])}
+
+
+def titleonly_cases(tier):
+    e = P.S(())
+    for tags in itertools.product(((), ("t",), ("u",)), repeat=3):
+        s1, s2, rs = tags
+        feats = [P.F((P.S((), s1), P.S((), s2))),
+                 P.F((P.S((), s1), P.S(("pass",), s2), P.R((P.S((), rs),)))),
+                 P.F((P.S(("pass",), s1), P.R((P.S((), s2), P.S((), rs)), tags=("u",))), tags=("x",))]
+        for f in feats:
+            for expr in ("t", "not t", "t and not u", "u"):
+                for show, dry in ((1, 0), (0, 0), (1, 1)):
+                    yield (f, expr, show, dry)
+
+
 def history_case(case):
     """the SAME parsed model is run twice with different tag expressions (no reset in between): the second run must
     select by the expression then in force only"""
@@ -167,5 +223,7 @@ def cases(tier):
 def run(ctx):
     ctx.bounds = {"nonempty_tag_slots": 2 if ctx.quick else 3, "expressions": len(EXPRS), "switch_combinations": 4}
     ctx.sweep(run_case, cases(ctx.tier), chunk=48, name="tagged programs x expressions x switches")
+    ctx.sweep(titleonly_case, titleonly_cases(ctx.tier), chunk=32,
+              name="title-only scenarios (no steps, no background), tagged on every level")
     ctx.sweep(history_case, history_cases(ctx.tier), chunk=48, name="same model run twice with different expressions")
     ctx.guard(len(ctx.nt) > 2000, "at least 2000 distinct cases with both selected and de-selected scenarios")
